@@ -213,6 +213,7 @@ def handleEmit : Handler := fun s =>
     let impl := Sexp.list (← s.field? "impl")
     let status ← (← impl.field1? "status").asAtom?
     let word (k : String) : Option String := do (← impl.field1? k).asAtom?
+    let num (k : String) : Option Nat := do (← impl.field1? k).asNat?
     if status != "ok" then
       -- both builds must fail alike; a failure only with the IR directory is a transparency violation
       let plain ← word "plain_status"
@@ -222,29 +223,39 @@ def handleEmit : Handler := fun s =>
              cls := if same then "" else "emit-ir-changes-outcome", tags := ["build-failed"],
              detail := s!"plain={plain} emit={emit}" }
     else
-      let shaPlain ← word "sha_plain"
-      let shaEmit ← word "sha_emit"
-      let shaFile ← word "sha_font_file"
-      let nIds ← (← impl.field1? "n_ids").asNat?
-      let nFiles ← (← impl.field1? "n_files").asNat?
-      let missing ← (← impl.field1? "ids_without_file").asNat?
-      let shared ← (← impl.field1? "ids_sharing_a_file").asNat?
-      let sharedKern ← (← impl.field1? "kern_ids_sharing_a_file").asNat?
-      let unexpected ← (← impl.field1? "files_without_id").asNat?
-      let readBack ← (← impl.field1? "readback_checked").asNat?
-      let readBad ← (← impl.field1? "readback_differs").asNat?
-      let readBadKern ← (← impl.field1? "readback_differs_kern_shared").asNat?
-      let same := shaPlain == shaEmit && shaEmit == shaFile
+      let fontsEqual := (← word "fonts_equal") == "true"
+      let nIds ← num "n_ids"
+      let nFiles ← num "n_files"
+      let missing ← num "ids_without_file"
+      let shared ← num "ids_sharing_a_file"
+      let sharedKern ← num "kern_ids_sharing_a_file"
+      let unexpected ← num "files_without_id"
+      let readBack ← num "readback_checked"
+      let readBad ← num "readback_differs"
+      let badKern ← num "readback_differs_kern_shared"
+      let badPost ← num "readback_differs_post"
+      let badEmpty ← num "readback_differs_empty_glyph"
+      let notes := ((← impl.field1? "notes").asString?).getD ""
+      -- the property on what the build left behind
       let oneFilePerId := missing == 0 && shared == 0 && unexpected == 0
       let faithful := readBad == 0
-      let oracle := same && oneFilePerId && faithful
-      let onlyKern := same && missing == 0 && unexpected == 0 && shared == sharedKern && readBad == readBadKern
+      let oracle := fontsEqual && oneFilePerId && faithful
+      -- failure class: anything not yet explained first, then the recorded kinds
+      let unexplained := !fontsEqual || missing != 0 || unexpected != 0 || shared != sharedKern ||
+        readBad != badKern + badPost + badEmpty
       let cls :=
-        if oracle then "" else if onlyKern then "kern-location-2-decimals"
-        else if !same then "emit-ir-changes-font" else if !oneFilePerId then "files-vs-ids" else "readback-differs"
+        if oracle then ""
+        else if !fontsEqual then "emit-ir-changes-font"
+        else if missing != 0 || unexpected != 0 || shared != sharedKern then "files-vs-ids"
+        else if unexplained then "readback-differs"
+        else if sharedKern != 0 then "kern-location-2-decimals"
+        else if badEmpty != 0 then "readback-empty-glyph"
+        else "readback-post-string-data"
       some { corr := none, oracle := some oracle, nontrivial := nIds ≥ 10 && readBack ≥ 5, cls := cls,
-             tags := [s!"files{min nFiles 100 / 20 * 20}+"] ++ (if shared > 0 then ["shared-file"] else []),
-             detail := if oracle then "" else s!"sha_plain={shaPlain} sha_emit={shaEmit} sha_file={shaFile} ids={nIds} files={nFiles} missing={missing} shared={shared} shared_kern={sharedKern} unexpected={unexpected} readback_differs={readBad}" }
+             tags := [s!"files{min nFiles 100 / 20 * 20}+"] ++ (if sharedKern > 0 then ["fail-kern-shared-file"] else []) ++
+               (if badPost > 0 then ["fail-post-readback"] else []) ++ (if badEmpty > 0 then ["fail-empty-glyph-readback"] else []),
+             detail := if oracle then "" else
+               s!"fonts_equal={fontsEqual} ids={nIds} files={nFiles} missing={missing} shared={shared} shared_kern={sharedKern} unexpected={unexpected} readback_differs={readBad} kern={badKern} post={badPost} empty_glyph={badEmpty} notes={notes.replace "\n" " "}" }
   r.getD (badInput "c14emit: cannot parse case")
 
 end Fontc.Driver.C14
